@@ -672,6 +672,7 @@ func genBitHistory(r *rng, maxOps, maxBits int, id int) Call {
 	// implementation shares between lists (free lists, scratch blocks) must not leak from one to the other
 	twoLists := r.chance(0.2)
 	otherLen := 0
+	huge := maxBits > 1_000_000
 	for i := 0; i < n; i++ {
 		if length >= maxBits {
 			style = 0
@@ -679,6 +680,33 @@ func genBitHistory(r *rng, maxOps, maxBits int, id int) Call {
 		if twoLists && r.chance(0.15) {
 			c.Ops = append(c.Ops, BitOp{Op: "switch"})
 			length, otherLen = otherLen, length
+			continue
+		}
+		// bulk growth by pattern: all ones, all zeros, a short repeating pattern, or pseudo-random
+		if style >= 1 && r.chance(0.06) && length < maxBits {
+			nb := r.rangeIn(1000, 60000)
+			if huge && r.chance(0.5) {
+				nb = r.rangeIn(300_000, 2_500_000)
+			}
+			if length+nb > maxBits {
+				nb = maxBits - length
+			}
+			op := BitOp{Op: "fill", N: nb, A: []int{1, 31, 32, 33, 1000, 4096, 5000}[r.intn(7)], Reads: r.intn(1 << 20)}
+			switch r.intn(5) {
+			case 0:
+				op.V = true
+			case 1:
+				op.Bs = []bool{false}
+			case 2:
+				op.Bs = []bool{true, false}
+			case 3:
+				// a 32 or 64 bit pattern with the sign bit set / a single bit / runs
+				pat := []uint64{0x80000000, 0xFFFFFFFF00000000, 0x00000001, 0x7FFFFFFF, 0xFF00FF00, 0x8000000080000001}[r.intn(6)]
+				for k := 63; k >= 0; k-- {
+					op.Bs = append(op.Bs, (pat>>uint(k))&1 == 1)
+				}
+			}
+			add(op, nb)
 			continue
 		}
 		x := r.intn(100)
@@ -705,14 +733,25 @@ func genBitHistory(r *rng, maxOps, maxBits int, id int) Call {
 			if r.chance(0.3) {
 				v = r.intn(1 << 12)
 			}
+			if r.chance(0.2) {
+				v = []int{0, -1, 1 << 31, 1<<31 - 1, -1 << 31, 1 << 32, 0xFF00FF00, 1 << 62, -1 << 63, 0x80000001}[r.intn(10)]
+			}
 			add(BitOp{Op: "addbits", A: v, N: k}, k)
 		case x < 58:
 			reps := 1
 			if style >= 1 && r.chance(0.4) {
 				reps = r.rangeIn(2, 600)
 			}
+			fixed := -1
+			if r.chance(0.25) {
+				fixed = []int{0x00, 0xFF, 0x80, 0x01}[r.intn(4)]
+			}
 			for j := 0; j < reps && length+8 <= maxBits+8; j++ {
-				add(BitOp{Op: "addbyte", A: r.intn(256)}, 8)
+				b := r.intn(256)
+				if fixed >= 0 {
+					b = fixed
+				}
+				add(BitOp{Op: "addbyte", A: b}, 8)
 			}
 		case x < 72:
 			if length > 0 {
@@ -741,6 +780,14 @@ func genBitHistory(r *rng, maxOps, maxBits int, id int) Call {
 			add(BitOp{Op: "iter", Reads: r.intn(3)}, 0)
 		default:
 			add(BitOp{Op: "itern", A: r.rangeIn(2, 3), N: r.intn(1 << 20)}, 0)
+		}
+	}
+	// some operations are performed by another goroutine (hand-over and back)
+	if r.chance(0.3) {
+		for i := range c.Ops {
+			if r.chance(0.12) && c.Ops[i].Op != "switch" {
+				c.Ops[i].Go = true
+			}
 		}
 	}
 	// always end with both byte views
